@@ -226,18 +226,12 @@ func runC01(e *sim.Env) {
 			e.Shape("clock")
 		}
 	}
-	// after the whole tree was handed over in order, nothing heavier may be left behind
+	// after the whole tree was handed over in order, hand over the heaviest
+	// valid chain once more: the per-call rules then demand that the node ends
+	// on it unless its current tip is within the "sufficiently heavier" margin
 	best := tree.Heaviest()
-	if best.L.State.SufficientlyHeavierThan(tip.L.State) && !best.Block.Timestamp.After(time.Now().Add(3*time.Hour)) {
-		futureOnPath := false
-		for _, n := range best.PathFromGenesis() {
-			if n.Block.Timestamp.After(time.Now().Add(3 * time.Hour)) {
-				futureOnPath = true
-			}
-		}
-		if !futureOnPath {
-			e.Violationf("C01.heavier-adopted", "final-not-heaviest", "after submitting every chain in order the tip is %s but %s is sufficiently heavier", tip.Describe(), best.Describe())
-		}
+	if best.Parent != nil {
+		submitChecked(e, "C01", s, tree, tip, best.PathFromGenesis()[1:], false)
 	}
 }
 
